@@ -45,7 +45,7 @@ var plans = map[string]plan{
 		Property: "C04", Level: "fault_enumeration",
 		Quick:    []phase{{Scen: "C04", Enum: true, Seeds: 6000, Batch: 250}, {Scen: "C04S", Seeds: 2000, Batch: 100}, {Scen: "C04SA", Seeds: 1500, Batch: 100}},
 		Thorough: []phase{{Scen: "C04", Enum: true, Seeds: 400000, Batch: 1000}, {Scen: "C04S", Seeds: 100000, Batch: 500}, {Scen: "C04SA", Seeds: 60000, Batch: 500}},
-		Rule:     "C04SA: announce-triggered syncs over libp2p streams (subscriber on a mocknet host with RecvAnnounce): streams reset or link down while a block request is in flight, or the link down already when the announcement arrives so that the sync client cannot be set up; exactly one notification per announcement (success or error), latest-sync unchanged on error, and after healing the same head announced again is synced. C04S: the same oracles over libp2p streams - publisher (real ipnisync.Publisher with a stream host, libp2phttp) and subscriber on two hosts of an in-memory mocknet; chain 3..8 with a pre-synced prefix; one fault per run placed at a drawn block, either while the publisher is reading that block for a request in flight (a scheduling point in its store) or between two requests: all connections closed (streams reset), or the link taken down as well; then heal and retry through the same subscriber. C04 enumerated: every single fault of 23 kinds (HTTP 404/403/400/429/500/503, reset before/mid response, truncated and short bodies, bit flip, empty, substituted and extended bodies, stall, long delay, context cancellation, hook-signalled failure, store open/write/commit errors and lost commit, refused dial) at every request/block/store-op index 0..7 of a 3-ad sync, for explicit and announce-triggered syncs x libp2p-HTTP discovery and plain HTTP x segmented and unsegmented; seeded: 1..5 faults of random kind and position, chains 3..8, retryable client, two live addresses, dead first address, random pre-synced prefix. After the faulty attempt the network heals and the same head is synced again through the same subscriber. A run is non-trivial when a fault fired; distinct = distinct (fault set, canonical log hash)",
+		Rule:     "C04SA: announce-triggered syncs over libp2p streams (subscriber on a mocknet host with RecvAnnounce): streams reset or link down while a block request is in flight, or the link down already when the announcement arrives so that the sync client cannot be set up; exactly one notification per announcement (success or error), latest-sync unchanged on error, and after healing the same head announced again is synced. C04S: the same oracles over libp2p streams - publisher (real ipnisync.Publisher with a stream host, libp2phttp) and subscriber on two hosts of an in-memory mocknet; chain 3..8 with a pre-synced prefix; one fault per run placed at a drawn block, either while the publisher is reading that block for a request in flight (a scheduling point in its store) or between two requests: all connections closed (streams reset), or the link taken down as well; then heal and retry through the same subscriber. C04 enumerated: every single fault of 24 kinds (HTTP 404/403/400/429/500/503, reset before/mid response, truncated and short bodies, bit flip, empty, substituted and extended bodies, stall, long delay, context cancellation at a request and from inside a hook call, hook-signalled failure, store open/write/commit errors and lost commit, refused dial) at every request/block/store-op index 0..7 of a 3-ad sync, for explicit and announce-triggered syncs x libp2p-HTTP discovery and plain HTTP x segmented and unsegmented; seeded: 1..5 faults of random kind and position, chains 3..8, retryable client, two live addresses, dead first address, random pre-synced prefix; a faulty attempt that names an unknown publisher without any address, or a dead address followed by a retry without addresses; the hook built by MakeGeneralBlockHook for a quarter of the subscribers; a link system with trusted storage for a quarter. After the faulty attempt the network heals and the same head is synced again through the same subscriber. A run is non-trivial when a fault fired; distinct = distinct (fault set, canonical log hash)",
 		Real:     []string{"dagsync.Subscriber", "announce.Receiver (direct announcements)", "ipnisync.Sync/Syncer", "ipnisync.Publisher", "go-ipld-prime traversal", "net/http client transport", "libp2p-HTTP discovery client", "retryablehttp"},
 		Stubs:    []string{"TCP/TLS (net.Pipe)", "HTTP server loop", "block stores (in-memory, fault points)", "wall clock (testing/synctest)", "gossip pubsub (absent: announcements are direct)", "libp2p stream transport (absent)"},
 		Assume:   commonAssume,
